@@ -132,6 +132,15 @@ def gen_circuit(cirq, rng, clifford=False, qudits=False, deep=False):
 
 
 # ------------------------------------------------------------------------------ translation to Lean ops
+def _sympy_eq(c):
+    import sympy
+
+    e = c.expr
+    if isinstance(e, sympy.Equality) and isinstance(e.lhs, sympy.Symbol) and isinstance(e.rhs, sympy.Integer) and int(e.rhs) >= 0:
+        return str(e.lhs), int(e.rhs)
+    return None
+
+
 def lean_ops(cirq, circuit, order):
     pos = {q: i for i, q in enumerate(order)}
     out = []
@@ -146,6 +155,12 @@ def lean_ops(cirq, circuit, order):
                     meas = [o for o in circuit.all_operations() if cirq.is_measurement(o) and str(c.key) in cirq.measurement_key_names(o)]
                     conds.append({'key': str(c.key), 'index': c.index, 'bitmask_kind': 1, 'target': c.target_value, 'equal': c.equal_target,
                                   'mask': c.bitmask, 'dims': [q.dimension for q in meas[0].qubits]})
+                elif isinstance(c, cirq.SympyCondition) and _sympy_eq(c) is not None:
+                    # Eq(Symbol(key), constant): the (big-endian) integer value of the latest record equals the constant
+                    key, target = _sympy_eq(c)
+                    meas = [o for o in circuit.all_operations() if cirq.is_measurement(o) and key in cirq.measurement_key_names(o)]
+                    conds.append({'key': key, 'index': -1, 'bitmask_kind': 1, 'target': target, 'equal': True, 'mask': None,
+                                  'dims': [q.dimension for q in meas[0].qubits]})
                 else:
                     raise common.InfraError(f'unsupported condition {c!r}')
             return {'kind': 'cc', 'conds': conds, 'op': conv(op.without_classical_controls())}
